@@ -319,6 +319,12 @@ pub fn check_crl_case(case: &CrlCase, info: &mut CaseInfo) -> Result<(), String>
 	if case.crl.revoked.is_empty() && c.revoked.is_some() {
 		return Err("revokedCertificates is present although nothing is revoked".into());
 	}
+	if matches!(&c.revoked, Some(v) if v.is_empty()) {
+		return Err("revokedCertificates is present but lists nothing".into());
+	}
+	if !case.crl.revoked.is_empty() && c.revoked.is_none() {
+		return Err("revokedCertificates is absent although entries were given".into());
+	}
 	Ok(())
 }
 
